@@ -167,7 +167,16 @@ func (n *Number) AsNum() (num any) {
 			num = f
 		} else {
 			n.FillBig()
-			num, _ = strconv.ParseFloat(string(n.BigBuf), 64)
+			f, err := strconv.ParseFloat(string(n.BigBuf), 64)
+			switch {
+			case err == nil || n.Conv == ojg.NumConvFloat64:
+				num = f
+			case n.Conv == ojg.NumConvString:
+				// Out of the float64 range, treat like any other big number.
+				num = string(n.BigBuf)
+			default:
+				num = json.Number(n.BigBuf)
+			}
 		}
 	}
 	return
@@ -188,8 +197,12 @@ func (n *Number) AsNode() (num Node) {
 		// Build the text and let strconv find the nearest float64; summing and scaling the parts
 		// rounds several times and is off by an ulp for many literals.
 		n.FillBig()
-		f, _ := strconv.ParseFloat(string(n.BigBuf), 64)
-		num = Float(f)
+		if f, err := strconv.ParseFloat(string(n.BigBuf), 64); err == nil {
+			num = Float(f)
+		} else {
+			// Out of the float64 range, treat like any other big number.
+			num = Big(n.BigBuf)
+		}
 	}
 	return
 }
